@@ -272,9 +272,17 @@ func (m *vC12) step() {
 		m.noteStarts(before)
 		m.check("end")
 	default:
+		waiting := append([]string{}, s.queue...)
 		m.clock += int64(11 * time.Minute)
 		s.cleanup()
 		m.settle()
+		// a receiver that waits for a slot is alive (its departure is announced by peer_left): the idle
+		// cleanup is for receivers that are neither waiting nor being served
+		same := len(s.queue) == len(waiting)
+		for i := 0; same && i < len(waiting); i++ {
+			same = s.queue[i] == waiting[i]
+		}
+		vAssert(same, "the idle cleanup does not drop a waiting receiver")
 		m.check("tick")
 	}
 }
